@@ -25,7 +25,7 @@ RULE = ("each run: one byte string (uniform random / generated message with 1..3
 REAL = common.REAL_DECODER + ["tpmstream.spec.commands.params_common (encrypted parameter type synthesis)"]
 ASSUMPTIONS = ["documented outcomes: normal completion, ConstraintViolatedError subclasses, InputStreamBytesDepletedError, "
                "InputStreamSuperfluousBytesError", "Response is only decoded with a command code (the CLI refuses otherwise)"]
-TIERS = {"quick": {"runs": 100000, "budget": 75, "run_timeout": 20}, "thorough": {"runs": 1500000, "budget": 780, "run_timeout": 20}}
+TIERS = {"quick": {"runs": 100000, "budget": 75, "run_timeout": 30}, "thorough": {"runs": 1500000, "budget": 780, "run_timeout": 30}}
 
 _CORPUS = None
 
@@ -80,6 +80,16 @@ def make_case(i, rng, tier):
         root, cc, enc = random_root(rng)
         label = "random:%d" % n
         recs.append(dict(kind="random-bytes", cls="raw", depth=0, regions=[]))
+    elif r < 0.2504:
+        # a long capture of very many short exchanges, well-formed or with its last message torn
+        inp = common.tiny_stream(rng, rng.choice((1050, 1200, 1200, 2100)))
+        data = inp["data"]
+        if rng.random() < 0.5:
+            data = data[:len(data) - rng.randint(1, 9)]
+            recs.append(dict(kind="trunc", cls="raw", depth=0, regions=[], off=len(data), at=len(data)))
+        root, cc, enc = model.STREAM, None, None
+        label = inp["label"]
+        recs.append(dict(kind="many-exchanges", cls="history", depth=0, regions=[]))
     elif r < 0.75:
         inp = common.gen_input(rng, common.target_for(i, rng), huge=True)
         o = model.decode(inp["root"], inp["data"], cc=inp["cc"], enc=inp["enc"])
